@@ -20,7 +20,15 @@ func init() {
 }
 
 func nonZeroExit(outcome string) bool {
+	if injectedPanic(outcome) {
+		return true // an unrecovered panic ends a Go program with status 2
+	}
 	return strings.HasPrefix(outcome, "exit:") && outcome != "exit:0"
+}
+
+// injectedPanic: the program died of the panic the fault "panic-mid" raised in a task's Go function
+func injectedPanic(outcome string) bool {
+	return strings.HasPrefix(outcome, "panic:") && strings.Contains(outcome, "injected-panic")
 }
 
 // failingTasks: reference tasks hit by the job's fault.
@@ -62,7 +70,7 @@ func oracleC09(r *runner, o *Obs) []Violation {
 	}
 	vs := []Violation{}
 	add := func(class, detail string) { vs = append(vs, Violation{Prop: "C09", Class: class, Detail: detail}) }
-	if o.Outcome == "deadlock" || o.Outcome == "horizon" || strings.HasPrefix(o.Outcome, "panic:") {
+	if o.Outcome == "deadlock" || o.Outcome == "horizon" || (strings.HasPrefix(o.Outcome, "panic:") && !injectedPanic(o.Outcome)) {
 		return vs // reported by nohang
 	}
 	if !nonZeroExit(o.Outcome) {
@@ -494,6 +502,8 @@ func applyJoinMod(p, mod string) string {
 		return filepath.Base(p)
 	case strings.HasPrefix(mod, "%"):
 		return "../" + strings.TrimSuffix(p, mod[1:])
+	case mod == "" && filepath.IsAbs(p):
+		return p // an absolute path resolves from anywhere
 	case mod == "":
 		return "../" + p
 	}
